@@ -154,7 +154,20 @@ func c14run(out *evid.Out, c *c14case) {
 		}
 	}
 	var root io.Writer
-	if c.single {
+	var decoys []*faultW
+	if !c.single && !c.viaWrite && c.d >= 3 && c.salt%3 == 2 {
+		// a shared base fan-out: base = Multi(Multi(w0, w1), w2..), the writer under test = Multi(base, last), and two more
+		// writers that extend the same base with destinations of their own, one built before and one after it. The
+		// destinations, their order and the error rules are those of the flat writer; the others' destinations get nothing.
+		inner := zerolog.MultiLevelWriter(ws[0], ws[1])
+		base := zerolog.MultiLevelWriter(append([]io.Writer{inner}, ws[2:c.d-1]...)...)
+		da, db := &faultW{id: 100, salt: c.salt}, &faultW{id: 101, salt: c.salt}
+		decoys = []*faultW{da, db}
+		_ = zerolog.MultiLevelWriter(base, levelFaultW{da})
+		root = zerolog.MultiLevelWriter(base, ws[c.d-1])
+		_ = zerolog.MultiLevelWriter(base, levelFaultW{db})
+		out.Count("cases_with_a_shared_base_fan_out", 1)
+	} else if c.single {
 		root = ws[0]
 	} else if c.viaWrite {
 		root = zerolog.LevelWriterAdapter{Writer: zerolog.MultiLevelWriter(ws...)}
@@ -286,6 +299,11 @@ func c14run(out *evid.Out, c *c14case) {
 		out.Count("short_writes_0_bytes", int64(dw.shorts[1]))
 		out.Count("short_writes_1_byte", int64(dw.shorts[2]))
 		out.Count("short_writes_half", int64(dw.shorts[3]))
+	}
+	for _, dw := range decoys {
+		if len(dw.calls) != 0 {
+			out.Violate("dest-log-foreign", fmt.Sprintf("a destination of another MultiLevelWriter built on the same base received %d call(s); %s", len(dw.calls), c), rep)
+		}
 	}
 	// per destination log
 	for di := 0; di < c.d; di++ {
